@@ -10,13 +10,14 @@ TECHNIQUE = ("adversarial differential testing of PartiallyDownloadedBlock again
              "with presented short-id collisions and malicious blocktxn answers, under ASan+UBSan")
 RULE = ("one case = (block of 1..200 generated transactions with valid merkle root / witness commitment, compact encoding class, pool state, "
         "blocktxn answer class). Encoding classes: honest, slot announces the id of an unrelated pool tx, duplicated short id, extra pool aliasing a "
-        "block wtxid to another tx, witness-malleated twin in the pool, prefilled-index games, degenerate encodings. Answer classes: exact, wrong tx, "
+        "block wtxid to another tx, witness-malleated twin in the pool, prefilled-index games, degenerate encodings, witness-stripped variant of the block (all witnesses incl. the coinbase reserved value / partial strips; stripped txs arriving prefilled, from mempool, from the extra pool or by blocktxn). Answer classes: exact, wrong tx, "
         "reordered, too few, too many, malleated twin, empty. Distinct by (encoding, answer, ntx, missing count, pool hits, statuses).")
 ASSUMPTIONS = ["short-id collisions are presented by construction (a genuine 48-bit SipHash collision is not brute-forced)",
                "blocks carry no proof of work and are never connected; only reconstruction is under test",
                "SHA-256 collisions do not occur"]
 REQUIRED = ["ok", "failed", "collision_presented", "collision_fell_back", "bad_blocktxn", "bad_blocktxn_rejected", "twin_in_pool", "pool_hits",
-            "enc_honest", "enc_coll_slot", "enc_dup_id", "enc_extra_alias", "enc_twin_pool", "enc_bad_prefill", "enc_degenerate",
+            "enc_honest", "enc_coll_slot", "enc_dup_id", "enc_extra_alias", "enc_twin_pool", "enc_bad_prefill", "enc_degenerate", "enc_stripped", "strip_all_presented", "strip_all_rejected", "strip_partial_presented",
+            "strip_via_prefill", "strip_via_mempool", "strip_via_extra", "strip_via_blocktxn", "strip_coinbase_reserved_value",
             "resp_exact", "resp_wrong_tx", "resp_reordered", "resp_too_few", "resp_too_many", "resp_twin", "resp_empty",
             "init_invalid", "init_failed", "fill_invalid", "fill_failed", "ok_rechecked", "ok_with_witness_commitment"]
 ZERO = b"\x00" * 32
@@ -64,4 +65,4 @@ def check(rec, st):
     if rec.get("nt"):
         st.nontrivial(rec["sig"])
     if case % 499 in (1, 2) and len(st.samples) < 4:
-        st.sample({k: rec[k] for k in ("case", "enc", "resp", "segwit", "ntx", "init", "fill", "missing", "pool_hits", "prefilled", "collision", "poolsize", "extra")})
+        st.sample({k: rec[k] for k in ("case", "enc", "strip_mode", "resp", "segwit", "ntx", "init", "fill", "missing", "pool_hits", "prefilled", "collision", "poolsize", "extra")})
